@@ -25,7 +25,7 @@ KF_WHOLE = {'copy_assign_self': ('C03_static_vector_self_copy_assign', lambda na
 
 def uw(blk, cap):
     d = {'ll_memset.0': 130, 'll_memcpy.0': 130, 'll_memmove.0': 130, 'll_memmove.1': 130, 'll_undef_bytes.0': 66}
-    for f, n in (('d_sym_block', blk), ('lg_register', 2 * cap + 4), ('lg_expect', 2 * cap + 4)):
+    for f, n in (('d_sym_block', blk), ('lg_register', 2 * cap + 4), ('lg_expect', 2 * cap + 4), ('lg_marks', 4 * (2 * cap + 2) + 4)):
         for i in range(4): d['%s.%d' % (f, i)] = n
     return d
 
